@@ -136,11 +136,11 @@ macro_rules! rat_harnesses {
     };
 }
 
-rat_harnesses!(r_i8, i8, i32, 7, 8);
-rat_harnesses!(r_i16, i16, i32, 31, 14);
-rat_harnesses!(r_i32, i32, i64, 31, 14);
-rat_harnesses!(r_i64, i64, i128, 31, 14);
-rat_harnesses!(r_i128, i128, i128, 15, 12);
+rat_harnesses!(r_i8, i8, i32, 7, 12);
+rat_harnesses!(r_i16, i16, i32, 10, 13);
+rat_harnesses!(r_i32, i32, i64, 10, 13);
+rat_harnesses!(r_i64, i64, i128, 7, 12);
+rat_harnesses!(r_i128, i128, i128, 5, 11);
 
 #[kani::proof]
 #[kani::unwind(8)]
